@@ -24,47 +24,57 @@
 (*   every queued event passes Filter = queue_event(): dropped iff the watch is non-recursive and          *)
 (*   _is_recursive_event(event);  `view` is _fs_view, the set of inodes already announced.                 *)
 (*                                                                                                        *)
+(* Environment choices (not defects): InodeReuse - a new entry may get the inode number of a removed one;   *)
+(* StickyCreated - FSEvents may repeat ItemCreated on later records of an item whose creation it has        *)
+(* already delivered (the "spurious is_created" the emitter's _fs_view exists for).  FSEventsXlat_reuse.cfg *)
+(* sets both.  ViewSkipInCreatedRemoved is a seeded mutant of the emitter (the is_created-and-is_removed    *)
+(* branch without its _fs_view.add / discard pair): FSEventsXlat_neg_view.cfg must be refuted - it is only  *)
+(* with inode re-use and sticky flags that this pair matters.                                              *)
 (* Environment switches (main configs: all FALSE; each *_neg_* config sets one to TRUE and TLC must find   *)
 (* the violation that checks/c20.py also observes on the real emitter):                                    *)
 (*   SplitPairs   a callback batch may end between the two Rn events of one rename           (finding F3)  *)
-(*   RenameTwice  an item may be renamed / moved again while an Rn event of it is untranslated (finding F4)*)
+(*   RenameTwice  an item may be renamed / moved again while an Rn event of it is untranslated, or an entry *)
+(*                moved in may re-use the inode number of a removed item whose Rn event is   (finding F4) *)
 (*   NonRecDirs   non-recursive watch: directories directly in the root are created, deleted, moved in,    *)
 (*                out or below                                                               (finding F1)  *)
 (*   NonRecCross  non-recursive watch: renames between the root and a sub-directory         (finding F2)  *)
 EXTENDS XlatCommon, TLC
 
-CONSTANTS MaxOps, SplitPairs, RenameTwice, NonRecDirs, NonRecCross, B2B, WithRoot, RecModes
+CONSTANTS MaxOps, SplitPairs, RenameTwice, NonRecDirs, NonRecCross, B2B, WithRoot, RecModes,
+          InodeReuse, StickyCreated, ViewSkipInCreatedRemoved
 
-VARIABLES start, rec, fs, ino, nextid, nops, pend, batch, phase, view, out, hot, lop, lout, alive, rootgone
-vars == <<start, rec, fs, ino, nextid, nops, pend, batch, phase, view, out, hot, lop, lout, alive, rootgone>>
+VARIABLES start, rec, fs, ino, nextid, nops, pend, batch, phase, view, out, hot, lop, lout, alive, rootgone, freed, ann
+vars == <<start, rec, fs, ino, nextid, nops, pend, batch, phase, view, out, hot, lop, lout, alive, rootgone, freed, ann>>
 
 UNK == <<99>>                                   \* a path outside the watched tree (dirname of the root)
 RootIno == 100
 IdOf(p) == IF Len(p) = 1 THEN p[1] ELSE 2 * p[1] + p[2]          \* inode ids 1..6 of the start tree's entries
 Dirname(p) == IF p = ROOT THEN UNK ELSE Parent(p)
 
-N(p, i, fl, k, pr) == [p |-> p, i |-> i, fl |-> fl, k |-> k, pr |-> pr]
+\* nw: the record begins a new item (bookkeeping of the generator, like pr: the emitter never reads it)
+N(p, i, fl, k, pr) == [p |-> p, i |-> i, fl |-> fl, k |-> k, pr |-> pr, nw |-> FALSE]
+Nw(p, i, fl, k) == [p |-> p, i |-> i, fl |-> fl, k |-> k, pr |-> "", nw |-> TRUE]
 RECURSIVE SeqOfSet(_)
 SeqOfSet(S) == IF S = {} THEN <<>> ELSE LET x == CHOOSE y \in S : \A z \in S : Len(y) >= Len(z) IN <<x>> \o SeqOfSet(S \ {x})
 RemovedEvs(ps) == [j \in 1..Len(ps) |-> N(ps[j], ino[ps[j]], {"Rm"}, fs[ps[j]], "")]
 
-Native(o) ==
-    CASE o.op \in {"mkfile", "mkdir"} -> <<N(o.src, nextid, {"Cr"}, o.k, "")>>
+Native(o, c) ==
+    CASE o.op \in {"mkfile", "mkdir"} -> <<Nw(o.src, c, {"Cr"}, o.k)>>
       [] o.op = "write" -> <<N(o.src, ino[o.src], {"Mod"}, "f", "")>>
       [] o.op = "delete" -> RemovedEvs(SeqOfSet(Children(fs, o.src)) \o <<o.src>>)
       [] o.op = "moveout" -> <<N(o.src, ino[o.src], {"Rn"}, fs[o.src], "")>>
-      [] o.op = "movein" -> <<N(o.dst, nextid, {"Rn"}, KindOf(o), "")>>
+      [] o.op = "movein" -> <<Nw(o.dst, c, {"Rn"}, KindOf(o))>>
       [] o.op = "rename" -> <<N(o.src, ino[o.src], {"Rn"}, fs[o.src], "old"), N(o.dst, ino[o.src], {"Rn"}, fs[o.src], "new")>>
       [] o.op = "rmroot" -> RemovedEvs(SeqOfSet({p \in Paths : fs[p] # "n"}))
                             \o <<N(ROOT, RootIno, {"Rm"}, "d", ""), N(ROOT, 0, {"Root"}, "d", "")>>
-InoAfter(o) ==
-    CASE o.op \in {"mkfile", "mkdir"} -> [ino EXCEPT ![o.src] = nextid]
+InoAfter(o, c) ==
+    CASE o.op \in {"mkfile", "mkdir"} -> [ino EXCEPT ![o.src] = c]
       [] o.op = "write" -> ino
       [] o.op \in {"delete", "moveout"} -> [p \in Paths |-> IF IsPrefix(o.src, p) THEN 0 ELSE ino[p]]
       [] o.op = "rename" -> [p \in Paths |-> IF IsPrefix(o.dst, p)
                                              THEN (IF Rebase(p, o.dst, o.src) \in Paths THEN ino[Rebase(p, o.dst, o.src)] ELSE 0)
                                              ELSE IF IsPrefix(o.src, p) THEN 0 ELSE ino[p]]
-      [] o.op = "movein" -> [p \in Paths |-> IF p = o.dst THEN nextid
+      [] o.op = "movein" -> [p \in Paths |-> IF p = o.dst THEN c
                                              ELSE IF o.k = "t" /\ p = o.dst \o <<1>> THEN nextid + 1
                                              ELSE IF o.k = "t" /\ p = o.dst \o <<2>> THEN nextid + 2 ELSE ino[p]]
       [] o.op = "rmroot" -> [p \in Paths |-> 0]
@@ -74,7 +84,7 @@ NoLop == [op |-> "none"]
 Init == /\ start \in StartTrees /\ rec \in RecModes /\ fs = start
         /\ ino = [p \in Paths |-> IF start[p] = "n" THEN 0 ELSE IdOf(p)] /\ nextid = 7
         /\ nops = 0 /\ pend = <<>> /\ batch = <<>> /\ phase = "idle" /\ view = {} /\ out = <<>>
-        /\ hot = {} /\ lop = NoLop /\ lout = <<>> /\ alive = TRUE /\ rootgone = FALSE
+        /\ hot = {} /\ lop = NoLop /\ lout = <<>> /\ alive = TRUE /\ rootgone = FALSE /\ freed = {} /\ ann = {}
 
 PendingRn(i) == (\E j \in 1..Len(pend) : pend[j].i = i /\ "Rn" \in pend[j].fl)
                 \/ (\E j \in 1..Len(batch) : batch[j].i = i /\ "Rn" \in batch[j].fl)
@@ -86,38 +96,57 @@ NonRecOK(o) ==
     /\ NonRecDirs \/ ~(o.op = "rmroot" /\ \E p \in Paths : Len(p) = 1 /\ fs[p] = "d")
     /\ NonRecCross \/ ~(o.op = "rename" /\ (Len(o.src) = 1) # (Len(o.dst) = 1))
 
-DoOp(o) ==
+Creates(o) == o.op \in {"mkfile", "mkdir", "movein"}
+FreedBy(o) == IF o.op = "delete" THEN {ino[p] : p \in {q \in Paths : IsPrefix(o.src, q) /\ fs[q] # "n"}}
+              ELSE IF o.op = "rmroot" THEN {ino[p] : p \in {q \in Paths : fs[q] # "n"}} ELSE {}
+DoOp(o, c) ==
     /\ nops < MaxOps /\ alive /\ batch = <<>>
     /\ (Quiet \/ B2B)
     /\ LET h0 == IF Quiet THEN {} ELSE hot IN PacingOK(fs, h0, o) /\ hot' = HotAfter(fs, h0, o)
     /\ (o.op \in {"rename", "moveout"} /\ ~RenameTwice) => ~PendingRn(ino[o.src])
+    /\ (o.op = "movein" /\ ~RenameTwice) => ~PendingRn(c)      \* ... nor under a re-used inode number
     /\ rec \/ NonRecOK(o)
-    /\ fs' = ApplyOp(fs, o) /\ ino' = InoAfter(o)
+    /\ c \in (IF InodeReuse /\ Creates(o) THEN freed ELSE {}) \cup {nextid}
+    /\ freed' = (freed \ {c}) \cup FreedBy(o)
+    /\ fs' = ApplyOp(fs, o) /\ ino' = InoAfter(o, c)
     /\ nextid' = nextid + (IF o.op \in {"mkfile", "mkdir"} THEN 1 ELSE IF o.op = "movein" THEN 3 ELSE 0)
-    /\ pend' = pend \o Native(o)
+    /\ pend' = pend \o Native(o, c)
     /\ nops' = nops + 1
     /\ rootgone' = (rootgone \/ o.op = "rmroot")
     /\ lop' = IF Quiet THEN [op |-> o.op, o |-> o, desc |-> DescOf(fs', IF o.op = "rename" \/ o.op = "movein" THEN o.dst ELSE o.src)]
               ELSE NoLop
     /\ lout' = <<>>
-    /\ UNCHANGED <<start, rec, batch, phase, view, out, alive>>
+    /\ UNCHANGED <<start, rec, batch, phase, view, out, alive, ann>>
 
-Callback(n) ==
+\* delivery bookkeeping of the environment: `ann` = inode numbers whose CURRENT item has been delivered with ItemCreated
+RECURSIVE Deliver(_, _, _, _)
+Deliver(b, j, a, sticky) ==       \* <<batch with sticky ItemCreated flags, announced set afterwards>>
+    IF j > Len(b) THEN <<b, a>>
+    ELSE LET e == b[j]
+             a0 == IF e.nw THEN a \ {e.i} ELSE a
+             e2 == IF sticky /\ e.i \in a0 /\ e.i # 0 THEN [e EXCEPT !.fl = e.fl \cup {"Cr"}] ELSE e
+             a1 == IF "Rm" \in e2.fl THEN a0 \ {e.i} ELSE IF "Cr" \in e2.fl THEN a0 \cup {e.i} ELSE a0
+         IN Deliver([b EXCEPT ![j] = e2], j + 1, a1, sticky)
+
+Callback(n, sticky) ==
     /\ batch = <<>> /\ n \in 1..Len(pend) /\ alive
     /\ (~SplitPairs /\ n < Len(pend)) => ~(pend[n].pr = "old")
-    /\ batch' = SubSeq(pend, 1, n) /\ pend' = SubSeq(pend, n + 1, Len(pend))
+    /\ sticky \in (IF StickyCreated THEN BOOLEAN ELSE {FALSE})
+    /\ LET d == Deliver(SubSeq(pend, 1, n), 1, ann, sticky) IN batch' = d[1] /\ ann' = d[2]
+    /\ pend' = SubSeq(pend, n + 1, Len(pend))
     /\ phase' = "coal"
-    /\ UNCHANGED <<start, rec, fs, ino, nextid, nops, view, out, hot, lop, lout, alive, rootgone>>
+    /\ UNCHANGED <<start, rec, fs, ino, nextid, nops, view, out, hot, lop, lout, alive, rootgone, freed>>
 
 \* only events ADJACENT in the batch are merged (the position of a merged event relative to events between its parts
 \* is not documented, so such merges are not generated)
 Coalesce(i) ==
     /\ phase = "coal" /\ i < Len(batch)
     /\ batch[i].i = batch[i + 1].i /\ batch[i].p = batch[i + 1].p /\ batch[i].i # 0
+    /\ ~batch[i + 1].nw                    \* an item that re-uses the inode number (at the same path) is another item
     /\ batch' = [m \in 1..(Len(batch) - 1) |->
                    IF m = i THEN [batch[i] EXCEPT !.fl = batch[i].fl \cup batch[i + 1].fl, !.pr = ""]
                    ELSE IF m < i THEN batch[m] ELSE batch[m + 1]]
-    /\ UNCHANGED <<start, rec, fs, ino, nextid, nops, pend, phase, view, out, hot, lop, lout, alive, rootgone>>
+    /\ UNCHANGED <<start, rec, fs, ino, nextid, nops, pend, phase, view, out, hot, lop, lout, alive, rootgone, freed, ann>>
 
 \* ---- the emitter
 DirMod(p) == Ev("modified", "d", Dirname(p), NONE, FALSE)
@@ -151,11 +180,11 @@ Step(evs, newbatch, newview) ==
     /\ phase' = "xlat"
     /\ batch' = newbatch /\ view' = newview
     /\ out' = out \o Filter(evs) /\ lout' = lout \o Filter(evs)
-    /\ UNCHANGED <<start, rec, fs, ino, nextid, nops, pend, hot, lop, rootgone>>
+    /\ UNCHANGED <<start, rec, fs, ino, nextid, nops, pend, hot, lop, rootgone, freed, ann>>
 
 T_CreatedRemoved ==
     /\ batch # <<>> /\ {"Cr", "Rm"} \subseteq Hd.fl /\ "Root" \notin Hd.fl
-    /\ Step(Pre(Hd) \o QDeleted(Hd), Rest, view \ {Hd.i}) /\ UNCHANGED alive
+    /\ Step(Pre(Hd) \o QDeleted(Hd), Rest, IF ViewSkipInCreatedRemoved THEN view ELSE view \ {Hd.i}) /\ UNCHANGED alive
 T_Plain ==
     /\ batch # <<>> /\ ~({"Cr", "Rm"} \subseteq Hd.fl) /\ "Rn" \notin Hd.fl /\ "Root" \notin Hd.fl
     /\ Step(Pre(Hd) \o (IF "Rm" \in Hd.fl THEN QDeleted(Hd) ELSE <<>>), Rest,
@@ -184,8 +213,8 @@ T_RootChanged ==
     /\ Step(<<Ev("deleted", "d", ROOT, NONE, FALSE)>>, Rest, {}) /\ alive' = FALSE
 
 Translate == T_CreatedRemoved \/ T_Plain \/ T_RenamedPair \/ T_RenamedIn \/ T_RenamedOut \/ T_RootChanged
-Next == \/ \E o \in Ops(fs) \cup (IF WithRoot THEN {RootOp} ELSE {}) : DoOp(o)
-        \/ \E n \in 1..Len(pend) : Callback(n)
+Next == \/ \E o \in Ops(fs) \cup (IF WithRoot THEN {RootOp} ELSE {}) : \E c \in freed \cup {nextid} : DoOp(o, c)
+        \/ \E n \in 1..Len(pend) : \E sticky \in BOOLEAN : Callback(n, sticky)
         \/ \E i \in 1..Len(batch) : Coalesce(i)
         \/ Translate
 Spec == Init /\ [][Next]_vars
